@@ -264,6 +264,10 @@ class Session:
         if self.after is None:
             return reason_of(m.perm, self.enc, self.auth, write)
         unmet = ra.unmet_requirement(m.perm, self.enc, self.auth, write)
+        if unmet == 'authentication' and self.link.authenticated and not self.link.encrypted:
+            # decided by the state, whatever event led to it: authentication completed on this connection, but the
+            # link is not (or no longer) encrypted
+            return 'authentication-requirement/link-authenticated-but-not-encrypted'
         base = f'{unmet}-requirement' if unmet else reason_of(m.perm, self.enc, self.auth, write)
         return f'{base}/after-{self.after}'
 
